@@ -473,7 +473,12 @@ func check(id, tier string) {
 	}
 
 	// ---- phase 2: determinism spot check (same seed, other process, other GOMAXPROCS)
-	detChecked, detNote := 0, ""
+	// A divergence is trouble (exit 2) - unless a failing case found by the
+	// search reproduces its violation exactly in two fresh processes below: a
+	// change to the tree may bring nondeterminism of its own (library goroutines
+	// the simulator does not schedule), which must not hide a violation that
+	// does replay.
+	detChecked, detNote, detDiverged := 0, "", ""
 	if h0 := outs[0].TraceHashes; len(h0) > 0 {
 		out := filepath.Join(work, "det.json")
 		cmd := exec.Command(filepath.Join(work, "sim.test"), "-test.run", "TestProp", "-test.cpu", "1", "-test.timeout", "0",
@@ -495,12 +500,15 @@ func check(id, tier string) {
 		for k, v := range h0 {
 			if v2, ok := o.TraceHashes[k]; ok {
 				detChecked++
-				if v != v2 {
-					trouble("DETERMINISM-DIVERGED: case %s gives result hash %x in one process and %x in another", k, v, v2)
+				if v != v2 && detDiverged == "" {
+					detDiverged = fmt.Sprintf("DETERMINISM-DIVERGED: case %s gives result hash %x in one process and %x in another", k, v, v2)
 				}
 			}
 		}
 		detNote = fmt.Sprintf("%d cases re-executed in a second process (GOMAXPROCS=1 like every simulator process), identical result hashes", detChecked)
+		if detDiverged != "" {
+			detNote = detDiverged
+		}
 	}
 
 	// ---- phase 3: failures
@@ -559,6 +567,12 @@ func check(id, tier string) {
 		fmt.Printf("VIOLATION property=%s replay=%s\n", id, path)
 		reported = append(reported, path)
 		code = 1
+	}
+	if detDiverged != "" {
+		if len(reported) == 0 {
+			trouble("%s", detDiverged)
+		}
+		fmt.Printf("note: %s; the violation(s) above were reproduced exactly (property, class, step) by two fresh processes each\n", detDiverged)
 	}
 	if len(diverged) > 0 && len(reported) == 0 {
 		trouble("REPLAY-DIVERGED: %d failing case(s) do not reproduce their violation in fresh processes: %s", len(diverged), strings.Join(diverged, ", "))
